@@ -7,6 +7,7 @@
 //! output: one line per DISTINCT execution:  <scenario-id> | seed=<s> out=<ok|deadlock|panic|steps> | <payload>
 #[path = "../../seq/src/core.rs"]
 mod core;
+mod handoff;
 #[path = "../../seq/src/sexp.rs"]
 mod sexp;
 #[path = "../../seq/src/value.rs"]
@@ -14,7 +15,9 @@ mod value;
 mod obs;
 mod pipe;
 mod queue;
+mod sctl;
 mod subj;
+mod subjlts;
 mod tovec;
 
 use another_rxrust::verif_facade as facade;
@@ -101,6 +104,96 @@ pub fn execute(seed: u64, strategy: &str, body: Arc<dyn Fn() + Send + Sync>) -> 
   }
 }
 
+/// Dynamic lock-order analysis of one execution (C07, cross-thread part).  Walks the lock events keeping, per
+/// thread, the locks it holds; every acquisition made while holding other locks adds an edge held -> acquired
+/// (lock instances, identified by creation order).  Verdict `ok` = no thread re-acquired a lock it holds and the
+/// edge relation is acyclic, i.e. a rank function exists under which every thread acquires in strictly increasing
+/// rank — the hypothesis of `Rx.LockOrder.ranked_no_deadlock`.  The certificate (that rank + the event list) is
+/// re-checked by the verified checker `Rx.LockOrder.checkTrace` (`rxmodel lockrank`).
+/// A condvar wait releases the mutex it was given and re-acquires it when woken.
+pub fn lock_order(events: &[facade::Event]) -> (String, String) {
+  use std::collections::{BTreeMap, BTreeSet};
+  let mut held: BTreeMap<usize, Vec<(usize, bool)>> = BTreeMap::new(); // tid -> [(lock, is_mutex)]
+  let mut parked: BTreeMap<usize, usize> = BTreeMap::new();
+  let mut edges: BTreeSet<(usize, usize)> = BTreeSet::new();
+  let mut sites: BTreeMap<usize, String> = BTreeMap::new();
+  let mut trace: Vec<String> = Vec::new();
+  let mut nodes: BTreeSet<usize> = BTreeSet::new();
+  let mut verdict = String::from("ok");
+  for e in events.iter() {
+    let acquire = |obj: usize, is_mutex: bool, held: &mut BTreeMap<usize, Vec<(usize, bool)>>, edges: &mut BTreeSet<(usize, usize)>, trace: &mut Vec<String>, verdict: &mut String| {
+      let h = held.entry(e.tid).or_default();
+      if h.iter().any(|x| x.0 == obj) && verdict == "ok" {
+        *verdict = format!("reacquire:{}", e.site);
+      }
+      for x in h.iter() {
+        edges.insert((x.0, obj));
+      }
+      h.push((obj, is_mutex));
+      trace.push(format!("{} A {}", e.tid, obj));
+    };
+    match e.kind {
+      "acq_r" | "acq_w" | "lock" => {
+        sites.insert(e.obj, e.site.clone());
+        nodes.insert(e.obj);
+        acquire(e.obj, e.kind == "lock", &mut held, &mut edges, &mut trace, &mut verdict);
+      }
+      "rel" | "unlock" => {
+        let h = held.entry(e.tid).or_default();
+        if let Some(i) = h.iter().rposition(|x| x.0 == e.obj) {
+          h.remove(i);
+          trace.push(format!("{} R {}", e.tid, e.obj));
+        }
+      }
+      "wait" => {
+        let h = held.entry(e.tid).or_default();
+        if let Some(i) = h.iter().rposition(|x| x.1) {
+          let m = h.remove(i).0;
+          parked.insert(e.tid, m);
+          trace.push(format!("{} R {}", e.tid, m));
+        }
+      }
+      "woken" => {
+        if let Some(m) = parked.remove(&e.tid) {
+          acquire(m, true, &mut held, &mut edges, &mut trace, &mut verdict);
+        }
+      }
+      _ => {}
+    }
+  }
+  // Kahn's algorithm: rank = position in a topological order of the edge relation
+  let mut indeg: BTreeMap<usize, usize> = nodes.iter().map(|n| (*n, 0)).collect();
+  for (_, b) in edges.iter() {
+    *indeg.entry(*b).or_default() += 1;
+  }
+  let mut ready: Vec<usize> = indeg.iter().filter(|(_, d)| **d == 0).map(|(n, _)| *n).collect();
+  let mut rank: BTreeMap<usize, usize> = BTreeMap::new();
+  let mut next = 1usize;
+  while let Some(n) = ready.pop() {
+    rank.insert(n, next);
+    next += 1;
+    for (a, b) in edges.iter() {
+      if *a == n {
+        let d = indeg.get_mut(b).unwrap();
+        *d -= 1;
+        if *d == 0 {
+          ready.push(*b);
+        }
+      }
+    }
+  }
+  if rank.len() < nodes.len() && verdict == "ok" {
+    let cyc: Vec<String> = nodes.iter().filter(|n| !rank.contains_key(n)).map(|n| sites.get(n).cloned().unwrap_or_default()).collect();
+    verdict = format!("cycle:{}", cyc.join(">"));
+  }
+  let cert = format!(
+    "{} | {}",
+    rank.iter().map(|(n, r)| format!("{}:{}", n, r)).collect::<Vec<_>>().join(","),
+    trace.join(";")
+  );
+  (verdict, cert)
+}
+
 /// a scenario turns one execution's outcome into the payload text that is compared / co-simulated
 pub trait Scenario: Send + Sync {
   /// uses the virtual clock (sleep / settle): explored with the random scheduler only
@@ -115,10 +208,13 @@ fn build(e: &Sexp) -> Option<Box<dyn Scenario>> {
   let (h, a) = e.call()?;
   match h {
     "obs" => obs::build(a),
+    "handoff" => handoff::build(a),
+    "subjlts" => subjlts::build(a),
     "tovec" => tovec::build(a),
     "queue" => queue::build(a),
     "subj" => subj::build(a),
     "pipe" => pipe::build(a),
+    "sctl" => sctl::build(a),
     _ => None,
   }
 }
@@ -131,6 +227,8 @@ fn main() {
   let seed: u64 = args.get(if exact { 2 } else { 1 }).and_then(|s| s.parse().ok()).unwrap_or(1);
   let iters: u64 = if exact { 1 } else { args.get(2).and_then(|s| s.parse().ok()).unwrap_or(100) };
   let strategy = args.get(3).cloned().unwrap_or_else(|| "random".to_string());
+  // RXH_LOCKCERT=k: print the lock-order certificate of the first k distinct executions of every scenario
+  let lockcert: usize = std::env::var("RXH_LOCKCERT").ok().and_then(|v| v.parse().ok()).unwrap_or(0);
   let stdin = std::io::stdin();
   let stdout = std::io::stdout();
   let mut out = stdout.lock();
@@ -182,10 +280,14 @@ fn main() {
         strategy.as_str()
       };
       let o = execute(s, strat, sc.body());
-      let payload = format!("out={} {} | {}", o.status, o.detail, sc.render(&o));
+      let (lo, cert) = lock_order(&o.events);
+      let payload = format!("out={} lo={} {} | {}", o.status, lo, o.detail, sc.render(&o));
       match seen.get_mut(&payload) {
         Some(v) => v.1 += 1,
         None => {
+          if seen.len() < lockcert {
+            let _ = writeln!(out, "LOCKCERT {} seed={} | {}", id, s, cert);
+          }
           seen.insert(payload.clone(), (s, 1, strat.to_string()));
           order.push(payload);
         }
